@@ -2,7 +2,7 @@
 import json
 import hsupport, oshar
 
-def make(g, pid, families, assumptions, labels, keep=lambda spec: True, extra_fds=(3, 4), tc_faults=False, faults=(False,), native=True):
+def make(g, pid, families, assumptions, labels, keep=lambda spec: True, extra_fds=(3, 4), tc_faults=False, faults=(False,), native=True, tty_native=False):
     def instances(tier, seed):
         out = []
         for fam in families:
@@ -18,8 +18,25 @@ def make(g, pid, families, assumptions, labels, keep=lambda spec: True, extra_fd
         res = oshar.run_instance(prog, inst, tier, seed, deadline)
         res['violations'] = [v for v in res['violations'] if v['label'] in labels or v['label'].startswith('crash')]
         return res
+    def find_spec(name):
+        for fam in families:
+            for sp in oshar.specs(fam, 'thorough'):
+                if sp['name'] == name: return sp
+        return None
     def replay(v):
         if native: return oshar.replay(v)
+        if tty_native:
+            # the real binary on a pseudo-terminal under strace: does the real call sequence show the same problem?
+            import ttyprobe
+            sp = find_spec(v.get('spec_name'))
+            if sp is None or sp.get('capture'): return dict(reproduced=None, witness=v['line'], note='no interactive spelling for this spec')
+            if (v.get('opts') or {}).get('faults') and v['label'] in ('terminal-not-returned',) and 'tc_fault' in json.dumps(v.get('inputs') or {}):
+                return dict(reproduced=None, witness=v['line'], note='needs a failing tcsetpgrp, which cannot be staged on a real terminal')
+            f = ttyprobe.probe(oshar.render(sp))
+            pr = ttyprobe.judge(f, sp)
+            if pr is None: return dict(reproduced=None, witness=v['line'], facts=f)
+            return dict(reproduced=any(lab == v['label'] for lab, _ in pr), witness=oshar.render(sp), problems=pr,
+                        facts={k: f.get(k) for k in ('children', 'groups', 'tcsetpgrp', 'masks_at_fork', 'final_mask', 'shell_pgrp')})
         return dict(reproduced=True, witness=v['line'], detail=v.get('detail'),
                     note='call-sequence property: the violating sequence of setpgid/tcsetpgrp calls derived from the code is the evidence; the kernel side is outside the claim')
     def replay_file(path):
@@ -29,6 +46,20 @@ def make(g, pid, families, assumptions, labels, keep=lambda spec: True, extra_fd
         return 0
     def finish(pid_, tier, seed, results, known, wall, th, log):
         agg = hsupport.merge(results)
+        if tty_native:
+            # translation validation at the call-sequence level: every interactive spec once through the real binary
+            import ttyprobe, concurrent.futures
+            todo = []
+            for fam in families:
+                for sp in oshar.specs(fam, tier):
+                    if keep(sp) and not sp.get('capture'): todo.append(sp)
+            with concurrent.futures.ThreadPoolExecutor(4) as ex:
+                facts = list(ex.map(lambda sp: ttyprobe.probe(oshar.render(sp)), todo))
+            for sp, f in zip(todo, facts):
+                pr = ttyprobe.judge(f, sp)
+                if pr is None: agg['issues'].append(dict(status='inconclusive', msg='tty probe: ' + str(f.get('error')), where=[sp['name']], inputs=None, instance=sp['name']))
+                elif pr: agg['mismatches'].append(dict(spec=sp['name'], line=oshar.render(sp), native_problems=pr, note='the real call sequence shows a problem the model does not'))
+                else: agg['validated'] += 1
         hsupport.report_issues(agg, log)
         code, lines, new, nknown = hsupport.triage(pid_, agg, known, lambda v: v['key'], replay, log, max_replays_per_key=6)
         for ln in lines: print(ln)
